@@ -97,7 +97,7 @@ class C20(Prop):
         elif inner_kind == "raw":
             plan["raw"] = {"status": t.choice([200, 201, 404, 299]), "reason": t.choice(["OK", "Fine", "Whatever You Say"]),
                            "headers": t.choice(RAW_HEADER_SETS), "chunks": [t.choice([b"a", b"bb", b"", b"chunk", b"x" * 70000]) for _ in range(t.draw(4))],
-                           "as_list": t.draw(2) == 0, "omit_headers_key": t.draw(5) == 0,
+                           "as_list": t.draw(2) == 0, "omit_headers_key": t.draw(5) == 0, "class_based": t.draw(4) == 0,
                            # an ASGI app that uses the zero-copy extension itself (when offered): (seek position, offset, count) per message
                            "zc": t.choice([None, None, [(7, None, None)], [(0, 100, 50), (3, None, 20)], [(40, None, 10), (0, None, None)]]),
                            # PEP 3333: start_response may be called again with exc_info before any body was sent
@@ -160,7 +160,19 @@ class C20(Prop):
             app = M.request_response(view)
         else:
             raw = plan["raw"]
-            if iface == "wsgi":
+            if iface == "wsgi" and raw.get("class_based") and not raw.get("restart"):
+                class app:          # PEP 3333's class-based form: the work, incl. start_response, happens in __iter__
+                    def __init__(self, environ, start_response):
+                        self.start = start_response
+
+                    def __iter__(self):
+                        counter["inner"] += 1
+                        n = counter["inner"]
+                        self.start("%d %s" % (raw["status"], raw["reason"]), list(raw["headers"]) + [("X-Run", str(n))])
+                        for c in raw["chunks"]:
+                            yield c
+                        yield b"run %d" % n
+            elif iface == "wsgi":
                 def app(environ, start_response):
                     counter["inner"] += 1
                     start_response("%d %s" % (raw["status"], raw["reason"]), list(raw["headers"]))
